@@ -767,6 +767,28 @@ def run_histories(chk, world, n_hist, baseline, d):
     return pending
 
 
+def run_alias_multi(chk, d, quick):
+    """shipped genes, the shipped NA10860 alignment (reads over CYP2D6 only) and a profile ALIAS (exome / wes / wxs / wgs are rewritten by
+    genotype() itself): a gene's result inside a multi-gene run must be its result when it is run alone with the same arguments"""
+    from aldy.common import script_path
+    bam = script_path("aldy.tests.resources/NA10860.bam")
+    params = {"minor_phase_vars": 10, "max_minor_solutions": 1}
+    for prof in (("wes",) if quick else ("wes", "exome", "wgs")):
+        for genes in (("cyp2c19", "cyp2d6"),) if quick else (("cyp2c19", "cyp2d6"), ("cyp2d6", "cyp2c8")):
+            job = lambda g: {"db": ",".join(g), "bam": bam, "profile": prof, "genome": None, "fmt": "aldy", "params": params}
+            single = run_genotype_job(job(("cyp2d6",)), d)
+            multi = run_genotype_job(job(genes), d)
+            case = {"history": [f"genotype:{','.join(genes)}:NA10860:{prof}"], "profile": prof}
+            chk.case("alias-multi", case, nontrivial=bool(single["result"]), sample={"single": {k: v[:1] for k, v in single["result"].items()}})
+            diff = same(single["result"].get("cyp2d6.yml") or single["result"].get("cyp2d6"),
+                        multi["result"].get("cyp2d6.yml") or multi["result"].get("cyp2d6"), "result")
+            if not diff and single["file"] not in multi["file"]:
+                diff = "file: the single-run output of the gene is not a contiguous part of the multi-gene output"
+            if diff:
+                chk.fail("multi-gene", {"op": "multi", "genes": ",".join(genes), "compare": "in-process single run of cyp2d6", "profile": prof},
+                         case, "the gene's result equals its single run with the same arguments", diff)
+
+
 def settle(chk, world, pending, base):
     """compare the in-process values with those of the fresh process (hash seed 0)"""
     stages_key = job_key({"kind": "stages", "db": "", "bam": "", "profile": "", "genome": world.build})
@@ -1235,6 +1257,7 @@ def run(chk):
         run_indel_tables(chk, 10 if quick else 150)
         t1 = time.time()
         pending = run_histories(chk, world, 24 if quick else 300, jobs, d)
+        run_alias_multi(chk, d, quick)
         chk.notes.append(f"[C14] in-process: pools {t1 - t0:.0f}s, histories {time.time() - t1:.0f}s")
         # ---- collect
         outs = {}
